@@ -1178,6 +1178,9 @@ class ServiceInstance:
                 self._send_offer(stop=True)
 
     def _send_offer(self, remote: _T_OPT_SOCKADDR = None, stop: bool = False) -> None:
+        if not stop and self._task is None:
+            # delayed answer to a FindService, scheduled before this instance was stopped
+            return
         entry = self.service.create_offer_entry(
             self.timings.ANNOUNCE_TTL if not stop else 0
         )
